@@ -201,12 +201,13 @@ class SrcInfo:
 
 
 class Fn:
-    __slots__ = ('name', 'nargs', 'locals', 'blocks', 'raw', 'sig', 'crate', 'compiled', 'nlines', 'span')
+    __slots__ = ('name', 'nargs', 'locals', 'blocks', 'raw', 'sig', 'crate', 'compiled', 'nlines', 'span', 'cleanup')
 
     def __init__(self, name, nargs, locals_, raw, sig, crate):
         self.name = name; self.nargs = nargs; self.locals = locals_; self.raw = raw; self.sig = sig
         self.crate = crate; self.compiled = None; self.blocks = None; self.nlines = sum(len(v) for v in raw.values())
         self.span = None
+        self.cleanup = set()
 
 
 class Program:
@@ -241,7 +242,7 @@ class Program:
                     head = l[:-4]
                     name = head.split(' ', 1)[1].rsplit(': ', 1)[0] if ': ' in head else head.split(' ', 1)[1]
                     nargs = 0; rest = ''
-                locs = {}; blocks = {}; cur = None; i += 1
+                locs = {}; blocks = {}; cur = None; i += 1; cleanup = set()
                 if is_fn:
                     for am in re.finditer(r'(_\d+): ', argpart):
                         pass
@@ -258,13 +259,16 @@ class Program:
                         if m2:
                             locs[m2.group(1)] = m2.group(2)
                     else:
-                        m2 = re.match(r'(bb\d+)(?: \(cleanup\))?: \{$', s)
+                        m2 = re.match(r'(bb\d+)( \(cleanup\))?: \{$', s)
                         if m2:
                             cur = m2.group(1); blocks[cur] = []
+                            if m2.group(2):
+                                cleanup.add(cur)
                         elif cur and s and s != '}' and not s.startswith(('StorageLive', 'StorageDead', 'debug ', 'scope ', 'FakeRead', 'PlaceMention', 'AscribeUserType', 'Retag', 'nop', 'Coverage', 'ConstEvalCounter')):
                             blocks[cur].append(s[:-1] if s.endswith(';') else s)
                     i += 1
                 fn = Fn(name, nargs, locs, blocks, l, crate)
+                fn.cleanup = cleanup
                 if not is_fn or 'promoted[' in name:
                     self.promoted[name] = fn
                 else:
